@@ -101,8 +101,8 @@ def Kept (it : Item) (o : Option Item) : Prop :=
     it'.cons.pendingRule = true ∧ it'.cons.le = false
 
 /-- A copy of the bundle with this tag was handed to a CLA successfully. -/
-def OkSent (outs : List Output) (tag : Nat) : Prop :=
-  ∃ p b, Output.sent p b true ∈ outs ∧ b.tag = tag
+def OkSent (outs : List Output) (b0 : Bundle) : Prop :=
+  ∃ p b, Output.sent p b true ∈ outs ∧ b.tag = b0.tag ∧ b.key = b0.key
 
 /-- All outputs of one `forward`/`dispatching` are transmissions of the bundle with this tag to
 connected peers. -/
@@ -270,7 +270,7 @@ theorem forwardSend_all (env : Env) (b : Bundle) (r : List Peer × Bool × Desc 
 theorem forwardSend_kept (env : Env) (b : Bundle) (r : List Peer × Bool × Desc × Node) (it : Item)
     (hg : r.2.2.2.store.get r.2.2.1.key = some it)
     (hfp : r.2.2.1.cons.fp = true) (hrp : r.2.2.1.cons.rp = false) (hle : r.2.2.1.cons.le = false) :
-    OkSent (forwardSend env b r).2 (r.2.2.1.bndl.getD b).tag ∨
+    OkSent (forwardSend env b r).2 (r.2.2.1.bndl.getD b) ∨
     Kept it ((forwardSend env b r).1.store.get r.2.2.1.key) := by
   unfold forwardSend
   simp only
@@ -279,7 +279,7 @@ theorem forwardSend_kept (env : Env) (b : Bundle) (r : List Peer × Bool × Desc
   by_cases hok : (sendAll env r.2.2.1 (r.2.2.1.bndl.getD b) r.1 r.2.2.2).2.2 = true
   · left
     rcases sendAll_sent env _ _ _ _ hok with ⟨p, hp⟩
-    refine ⟨p, _, ?_, rfl⟩
+    refine ⟨p, _, ?_, rfl, rfl⟩
     split <;> exact hp
   · right
     have hok' : (sendAll env r.2.2.1 (r.2.2.1.bndl.getD b) r.1 r.2.2.2).2.2 = false := by
@@ -351,7 +351,7 @@ theorem Kept.of_eq {it it2 : Item} {o : Option Item} (h : Kept it2 o) (hb : it2.
 theorem forward_kept (env : Env) (d : Desc) (b : Bundle) (n : Node) (it : Item)
     (hg : n.store.get d.key = some it) (hd : d.bndl = some b)
     (hrp : d.cons.rp = false) (hle : d.cons.le = false) (hf : forwardable n.now b) :
-    OkSent (forward env d b n).2 b.tag ∨ Kept it ((forward env d b n).1.store.get d.key) := by
+    OkSent (forward env d b n).2 b ∨ Kept it ((forward env d b n).1.store.get d.key) := by
   unfold forward
   simp only
   have hne : ({ d.cons with fp := true, dp := false } : Cons).isEmpty = false := by simp [Cons.isEmpty]
@@ -369,19 +369,20 @@ theorem forward_kept (env : Env) (d : Desc) (b : Bundle) (n : Node) (it : Item)
   have := forwardSend_kept env b (selectSenders env { d with cons := { d.cons with fp := true, dp := false } } b
     (sync { d with cons := { d.cons with fp := true, dp := false } } n)) it2
     (by rw [hdesc.1]; exact g2) (by rw [hdesc.2.1]) (by rw [hdesc.2.1]; exact hrp) (by rw [hdesc.2.1]; exact hle)
-  rw [htag.1, hdesc.1] at this
+  rw [hdesc.1] at this
   rcases this with h | h
-  · exact Or.inl h
+  · rcases h with ⟨p, b', hm, ht, hk⟩
+    exact Or.inl ⟨p, b', hm, ht.trans htag.1, hk.trans htag.2.1⟩
   · exact Or.inr (h.of_eq b2 e2)
 
 
 /-! ## dispatching -/
 
-/-- The tag of the bundle a descriptor stands for: the in-memory bundle, else the stored one. -/
-def descTag (d : Desc) (it : Item) : Nat :=
+/-- The bundle a descriptor stands for: the in-memory bundle, else the stored one. -/
+def descTag (d : Desc) (it : Item) : Bundle :=
   match d.bndl with
-  | some b => b.tag
-  | none => it.bundle.tag
+  | some b => b
+  | none => it.bundle
 
 theorem dispatching_kept (env : Env) (d : Desc) (n : Node) (it : Item) (hfix : n.cfg.holdFix = true)
     (hg : n.store.get d.key = some it) (hrp : d.cons.rp = false) (hle : d.cons.le = false)
@@ -480,7 +481,7 @@ theorem dispatching_only (env : Env) (d : Desc) (n : Node) (hk : WF n)
       · exact forward_only env { d with bndl := some b } b _ rfl hbk
 
 theorem dispatching_outs (env : Env) (d : Desc) (n : Node) (it : Item)
-    (hg : n.store.get d.key = some it) : OutsOf (dispatching env d n).2 n.peers (descTag d it) := by
+    (hg : n.store.get d.key = some it) : OutsOf (dispatching env d n).2 n.peers (descTag d it).tag := by
   unfold dispatching
   simp only
   have ha := dispatchingAllowed_rt env d n
@@ -494,7 +495,7 @@ theorem dispatching_outs (env : Env) (d : Desc) (n : Node) (it : Item)
       · intro o ho; simp at ho
       · have := forward_outs env { d with bndl := some b } b (dispatchingAllowed env d n).2 rfl
         rw [ha.only.env.peers] at this
-        have htag : b.tag = descTag d it := by
+        have htag : b.tag = (descTag d it).tag := by
           unfold Desc.bundle at hbun
           unfold descTag
           cases hd : d.bndl with
